@@ -137,6 +137,9 @@ func (e *Engine) encodeFunction(name string) (fe *FuncEnc, err error) {
 			t := fe.evalClause(f, rq, st, st, nil, nil, fn.Pos())
 			fe.assume(tBool(true), t)
 		}
+		for _, d := range fe.con.Decreases {
+			fe.entryMeasure = append(fe.entryMeasure, fe.define("measure", fe.evalClause(f, d, st, st, nil, nil, fn.Pos())))
+		}
 		for _, df := range fe.con.Defines {
 			t := fe.evalClause(f, df, st, st, nil, nil, fn.Pos())
 			fe.assume(tBool(true), t)
